@@ -78,6 +78,8 @@ MUTANTS = [
     ("dual1_edge_list", "bempp_cl/api/space/scalar_dual_spaces.py", "enumerate([[1, 5], [13, 17], [7, 11]])", "enumerate([[1, 5], [7, 11], [13, 17]])", 0, ["C10"]),
     ("bary_connectivity", "bempp_cl/api/grid/grid.py", "        new_elements[1, 6 * index + 2] = local_vertex_ids[2]", "        new_elements[1, 6 * index + 2] = local_vertex_ids[1]", 0, ["C10", "C11"]),
     ("refine_orientation", "bempp_cl/api/grid/grid.py", "new_elements[:, 4 * index + 3] = [vertex01, vertex12, vertex20]", "new_elements[:, 4 * index + 3] = [vertex01, vertex20, vertex12]", 0, ["C11", "C04"]),
+    ("griddata_swapped_arguments", "bempp_cl/api/grid/grid.py", "            self._diameters,\n            self._integration_elements,\n            self._centroids,\n            self._domain_indices,\n            self._vertex_on_boundary,\n            self._element_neighbors.indices,\n            self._element_neighbors.indexptr,\n        )\n\n        self._grid_data_single", "            self._integration_elements,\n            self._diameters,\n            self._centroids,\n            self._domain_indices,\n            self._vertex_on_boundary,\n            self._element_neighbors.indices,\n            self._element_neighbors.indexptr,\n        )\n\n        self._grid_data_single", 0, ["C11"]),
+    ("griddata_single_precision_jacobian", "bempp_cl/api/grid/grid.py", "            self._jacobian_inverse_transposed.astype(\"float32\"),", "            self._jacobians.astype(\"float32\"),", 0, ["C11"]),
     ("incidence_ravel_order", "bempp_cl/api/grid/grid.py", "vertex_indices = _np.ravel(elements, order=\"F\")", "vertex_indices = _np.ravel(elements, order=\"C\")", 0, ["C11"]),
     ("edge_neighbours_wrong_value", "bempp_cl/api/grid/grid.py", "edge_neighbors[self.element_edges[local_index, element_index]].append(element_index)", "edge_neighbors[self.element_edges[local_index, element_index]].append(local_index)", 0, ["C11"]),
     ("element_neighbours_of_vertex_matrix", "bempp_cl/api/grid/grid.py", "self._element_neighbors = IndexList(elem_to_elem_matrix.indices, elem_to_elem_matrix.indptr)", "self._element_neighbors = IndexList(self._element_to_vertex_matrix.indices, self._element_to_vertex_matrix.indptr)", 0, ["C11"]),
